@@ -129,7 +129,7 @@ def gen_scenario(rng):
     """hand-shaped layouts the document grammar does not produce: one dynamic node under two paths (YAML anchor / alias), and !eval
     consumers that reach dynamic nodes by (nested) name.  Returns entries [(key, text)] per layout, probes and the calls expected."""
     n = rng.randint(1, 9)
-    kind = rng.choice(['alias', 'alias_nested', 'eval_top', 'eval_partial', 'eval_partial_deep', 'eval_through'])
+    kind = rng.choice(['alias', 'alias_nested', 'eval_top', 'eval_partial', 'eval_partial_deep', 'eval_through', 'eval_multiline'])
     if kind in ('alias', 'alias_nested'):
         pair = [('a', f'!call:vmod.f {{u: {n}}}'), ('b', None)]      # the later one of the two becomes the alias
         rest = [('r', '!xref P.a'), ('r2', '!xref P.b'), ('user', '!call:vmod.g {p: !xref P.a, q: !xref P.b}'), ('l', '[!xref P.b, !xref P.a]')]
@@ -155,6 +155,12 @@ def gen_scenario(rng):
             layouts.append('{box: ' + body + ', z: 0}' if nested else body)
         probes = [p.replace('C.', 'cfg.box.' if nested else 'cfg.') for p in probes]
         return dict(kind=kind, layouts=layouts, probes=probes, expect=sorted(expect))
+    if kind == 'eval_multiline':
+        # multi-line !eval nodes (their statements run in a namespace kept in sys.modules, named after path + code): two nodes with IDENTICAL code
+        # at the paths a.b and a_b share that name - each must still execute its statements, once
+        code = '"import vmod\\nt%d = vmod.f()\\nt%d"' % (n, n)
+        layouts = ['{a: {b: !eval %s}, a_b: !eval %s, r: !xref a.b}' % (code, code), '{a_b: !eval %s, r: !xref a.b, a: {b: !eval %s}}' % (code, code)]
+        return dict(kind=kind, layouts=layouts, probes=['cfg.a.b is not cfg.a_b', 'cfg.r is cfg.a.b', 'isinstance(cfg.a_b, Rec)'], expect=['vmod.f', 'vmod.f'])
     if kind == 'eval_through':
         # a reference THROUGH a mapping (to a nested entry) and a name lookup of the mapping itself (repaired defect 4628d78)
         ents = [('r', '!xref c.d.e'), ('q', '!eval c'), ('c', '{d: {e: !call:vmod.f {u: %d}}, f: 2}' % n), ('q2', '!xref c')]
